@@ -2,7 +2,7 @@
    Model/Effects.v: a program accepted by the static check `safe` leaves every object of the caller's heap
    untouched, for ALL initial heaps and ALL argument tuples (any aliasing between arguments included). *)
 From Coq Require Import List Arith ZArith Bool.
-From TLV Require Import Model.Effects Proofs.EffectsProofs Proofs.EffectsProofsSk Proofs.EffectsProofsGen Proofs.EffectsProofsPaths.
+From TLV Require Import Model.Effects Proofs.EffectsProofs Proofs.EffectsProofsSk Proofs.EffectsProofsGen Proofs.EffectsProofsPaths Proofs.EffectsProofsReach.
 Import ListNotations.
 
 (* the frame theorem *)
@@ -289,6 +289,19 @@ Example C15_psafe_demo :
   psafe_with [false] (PSeq (PChoice (PPrim (Copy 1 0)) (PPrim (View 1 0 [0]))) (PPrim (InplaceOp 1 2))) = false /\
   length (paths (PRepeat 2 (PChoice (PPrim Skip) (PPrim (Alloc 1 2))))) = 4.
 Proof. exact psafe_demo. Qed.
+
+(* ------------------------------------------------------------------ the region used by the correspondence is the `reach` of C15_frame_inplace
+   (soundness unconditionally inside the proof; completeness from the closure certificate that Corr.C15.agree checks per case) *)
+Theorem C15_region_exact : forall h args flags,
+  region_closed h (inplace_region h args flags) = true ->
+  forall o, In o (inplace_region h args flags) <-> reach h (inplace_roots (combine args flags)) o.
+Proof. exact region_exact. Qed.
+Print Assumptions C15_region_exact.
+
+Example C15_region_exact_demo :
+  region_closed demo_heap (inplace_region demo_heap demo_args [false; true; false; false]) = true /\
+  inplace_region demo_heap demo_args [false; true; false; false] = [6; 1; 5; 2; 3; 4].
+Proof. exact region_exact_demo. Qed.
 
 (* non-vacuity of the in-place frame statement *)
 Example C15_hals_nnls_nonvacuous :
